@@ -628,6 +628,8 @@ class XsdAnyElement(XsdWildcard, ParticleMixin,
                 return True
             else:
                 return any(ns not in other.not_namespace for ns in self.namespace)
+        elif not self.namespace or not other.namespace:
+            return False  # namespace="" admits no name
         elif self.namespace == other.namespace:
             return True
         elif '##any' in self.namespace or '##any' in other.namespace:
